@@ -90,7 +90,7 @@ theorem tdvp1_one_site_ok {k : EvoKernels 𝕜 ℝ} (hq : C01.QRKernel k.dqr) (h
     exact List.getElem_mem hl
   have hpos : 0 < k.cnorm (flat3 A1) := (hN.pos_iff _).2 (rightIso_entry hri hd1)
   obtain ⟨Al, hAl⟩ := localStep_ok_one (k := k) hd (L := ones111) (R := (⟨1, 1, 1, fun _ _ _ => 1⟩ : T3 𝕜)) (W := W)
-    (A := A1) hpos dt
+    (A := A1) hN hpos dt
   unfold integrateLocalSinglesite
   rw [hp]
   have hL : H.A.length = 1 := by rw [hW]; rfl
